@@ -116,5 +116,7 @@ def main():
             ctx.violation(info, note="an accepted translation selects other entities than the query means")
     ctx.cov["rejected_with_EQLTranslationError"] = rejected
     ctx.assumptions = ["the reference answer (TLC) arbitrates; in-memory deviations from it are C01's business",
-                       "None is modelled as a value unequal to every literal (Python's None under == and !=)"]
+                       "None is modelled as a value unequal to every literal (Python's None under == and !=)",
+                       "which of two self-referential links to one target survives the commit is arbitrary (finding F09): the number of "
+                       "cases attributed to C07-F09 varies by a few between runs; nothing else depends on those links"]
     return ctx.finish()
